@@ -130,6 +130,22 @@ def gen_cases(tier, rng):
     for content in ('-v -x', '-x', '-n 7 -x\n-v', '-x a b\n'):
         cases.append('H:f=16 prog:%s %sfile:%s argv:- kind:command-mode' % (A.hx('pcm'), cbase, A.hx(content)))
         cases.append('H:f=32 prog:%s %senv:%s argv:2d76 kind:command-mode' % (A.hx('pcm'), cbase, A.hx(content.replace('\n', ' '))))
+    # strings that end inside an escape or a quotation, through every way a string reaches the splitter
+    for head in ('', 'a', '-i 5', '-i 5 ', "'", '"a', '-n "x'):
+        for tail in ('\\', '\\\\', "'\\", '"\\', ' \\', 'a\\', "'", '"', "\\'", '\\"'):
+            txt = head + tail
+            cases.append('split:%s kind:string-end' % A.hx(txt))
+            cases.append('H:f=0 arg:i:i0: arg:n:s0: line:%s kind:string-end' % A.hx(txt))
+            cases.append('H:f=32 prog:%s arg:i:i0: arg:n:s0: env:%s argv:- kind:string-end' % (A.hx('pse'), A.hx(txt)))
+            cases.append('H:f=16 prog:%s arg:i:i0: arg:n:s0: file:%s argv:- kind:string-end' % (A.hx('pse'), A.hx(txt + '\n-i 6')))
+    # --help-arg / --help-arg-full with every kind of value: ordinary argument, sub-group, paths with slashes,
+    # unknown keys (usage output continues: hfUsageCont; outside the model, sanitizers only)
+    hb = 'H:f=%d arg:l,list:vi0: arg:n,number:i0: arg:f:b0:init=0 S:o,output:f=%d arg:q,quiet:b1:init=0 arg:file:s0: ' % (0x4 | 0x8 | 0x8000, 0x8000)
+    for opt in ('--help-arg', '--help-arg-full'):
+        for v in ('l', 'list', '-l', '--number', 'o', 'o/q', 'output/file', 'o/x', 'l/f', '--number/x', 'n/', '/n', '/', 'o/q/r',
+                  'x', '', 'o/', 'lis', 'f/f', '-o/-q'):
+            cases.append(hb + A.argv_tok([opt + '=' + v]) + ' kind:help-arg')
+            cases.append(hb + A.argv_tok([opt, v]) + ' kind:help-arg')
     # argument files that name argument files: a file that names itself, a cycle of two, chains at the nesting limit
     af = 'H:f=0 arg:i:i0: arg:arg-file:af0: '
     cases.append(af + 'xfile:66312e7061:%s argv:2d2d6172672d66696c65,66312e7061 kind:arg-file-nesting' % A.hx('--arg-file f1.pa\n'))
